@@ -184,6 +184,7 @@ async fn setup(ctx: &Ctx, epmd: &net::EpmdTable, id: usize) -> Option<(World, Pe
 }
 
 async fn routing_and_faults(ctx: &Ctx, rng: &mut Rng, epmd: &net::EpmdTable, id: usize, terminal: Terminal) {
+    ctx.beat(&format!("routing-and-faults/{}", id));
     let Some((w, mut peer)) = setup(ctx, epmd, id).await else { return };
     let remote = Val::Pid { node: w.peer_node.clone(), id: 9, serial: 1, creation: 2 };
     let mut uid: i128 = id as i128 * 10_000;
@@ -411,6 +412,7 @@ impl Process for Gated {
 /// burst is on the wire) or slow; every frame must still be delivered, exactly once, and frames for other
 /// recipients and the connection must be unaffected.
 async fn burst(ctx: &Ctx, rng: &mut Rng, epmd: &net::EpmdTable, id: usize) {
+    ctx.beat(&format!("burst/{}", id));
     let Some((w, mut peer)) = setup(ctx, epmd, id).await else { return };
     let open = Arc::new(std::sync::atomic::AtomicBool::new(false));
     let seen: Arc<Mutex<Vec<i128>>> = Default::default();
@@ -500,6 +502,7 @@ async fn quiet_period(ctx: &Ctx, epmd: &net::EpmdTable, id: usize, periods: usiz
     // longer than the timeout), tick, ordinary frame; the peer never stays silent longer than 12.5 s
     for p in 0..periods {
         tokio::time::sleep(Duration::from_millis(12_500)).await;
+        ctx.beat(&format!("quiet-period/{}", p));
         if p == 0 {
             if !probe_as(ctx, &w, &mut peer, 434343 + id as i128, "Quiet+FrameInPieces", id, true).await {
                 return;
